@@ -4,11 +4,28 @@ _SM = ("state-machine sink: whether the inner sink exists and is ready depends o
        "The sends *inside* its poll functions (buffered first item) are still checked.")
 EXCEPTIONS = {
     "C14": {
+        "C14.linear|sinktools|<Filter<Si, Func> as Sink<Item>>::start_send|dropped:itemx1": "intentional: the predicate rejected the item (filter semantics)",
         "C14.ready|sinktools|<LazySink<Func, Fut, Si, Item> as Sink<Item>>::start_send|unready-send:self.state.sink": _SM,
         "C14.finalize|sinktools|<LazySink<Func, Fut, Si, Item> as Sink<Item>>::poll_flush|missing:self.state.sink": _SM + " Uninit returns Ready(Ok) lazily (nothing was sent); otherwise the result is the inner sink's, passed through a function-pointer parameter.",
         "C14.finalize|sinktools|<LazySink<Func, Fut, Si, Item> as Sink<Item>>::poll_close|missing:self.state.sink": _SM + " Uninit returns Ready(Ok) lazily (nothing was sent); otherwise the result is the inner sink's, passed through a function-pointer parameter.",
         "C14.ready|sinktools|<LazySinkHalf<Fut, St, Si, Item, Error> as Sink<Item>>::start_send|unready-send:self.state.?borrow_mut.sink": _SM,
         "C14.finalize|sinktools|<LazySinkHalf<Fut, St, Si, Item, Error> as Sink<Item>>::poll_flush|missing:self.state.?borrow_mut.sink": _SM + " Uninit returns Ready(Ok) lazily (nothing was sent).",
         "C14.finalize|sinktools|<LazySinkHalf<Fut, St, Si, Item, Error> as Sink<Item>>::poll_close|missing:self.state.?borrow_mut.sink": _SM + " Uninit returns Ready(Ok) lazily (nothing was sent).",
+    },
+    "C11": {
+        "C11.linear|dfir_pipes|<Filter<Prev, Func> as Pull>::pull|dropped:itemx1": "intentional: the predicate rejected the item (filter semantics)",
+        "C11.linear|dfir_pipes|<Skip<Prev> as Pull>::pull|dropped:itemx1": "intentional: one of the first n items is skipped (skip semantics)",
+        "C11.linear|dfir_pipes|<SkipWhile<Prev, Func> as Pull>::pull|dropped:itemx1": "intentional: the predicate still holds, the item is skipped (skip_while semantics)",
+        "C11.linear|dfir_pipes|<TakeWhile<Prev, Func> as Pull>::pull|dropped:itemx1": "intentional: the first item failing the predicate terminates the stream and is discarded (take_while semantics, same as Iterator::take_while)",
+        "C11.linear|dfir_pipes|<SymmetricHashJoin<Lhs, Rhs, LhsState, RhsState, LhsStateInner, RhsStateInner> as Pull>::pull|dropped:kx4": "intentional: build() stores a clone of the key and the probe works by reference; the pulled tuple itself is consumed by reference",
+        "C11.linear|dfir_pipes|<SymmetricHashJoin<Lhs, Rhs, LhsState, RhsState, LhsStateInner, RhsStateInner> as Pull>::pull|dropped:v1x2": "intentional: build() stores Cow::Borrowed(&v1) by cloning; the pulled value is consumed by reference",
+        "C11.linear|dfir_pipes|<SymmetricHashJoin<Lhs, Rhs, LhsState, RhsState, LhsStateInner, RhsStateInner> as Pull>::pull|dropped:v2x2": "intentional: build() stores Cow::Borrowed(&v2) by cloning; the pulled value is consumed by reference",
+    },
+    "C12": {
+        "C12.linear|dfir_pipes|<Filter<Next, Func> as Push<Item, Meta>>::start_send|dropped:itemx1": "intentional: the predicate rejected the item (filter semantics)",
+        "C12.linear|dfir_pipes|<StatePush<Item, MappingFn, ItemsPsh, StatePsh, Lat> as Push<Item, ()>>::start_send|dropped:itemx1": "intentional: only items whose merge changed the state are forwarded (documented on StatePush)",
+    },
+    "C15": {
+        "C15.linear|hydro_deploy_integration|<MergeSource<T, S> as Stream>::poll_next|dropped:outx1": "statically reachable, dynamically infeasible: `out` is dropped only on the `sources.is_empty()` return, and a source that has just yielded an item is still in `sources` (only sources that reported Ready(None) are removed)",
     },
 }
